@@ -1144,6 +1144,9 @@ def run(tier, only=None):
     q13(rep)
     q14(rep, tier)
     q15(rep)
+    from . import lowmask
+    opt_units = [u for u in common.compiler_units() if u.startswith("of_") or u in ("usedef.c", "flog.c", "dflow.c", "optfoam.c", "inlutil.c", "loops.c", "bitv.c")]
+    lowmask.report(rep, "Q16", opt_units)       # the data-flow iteration's vectors: the last word counts when the size is a multiple of the word
     from . import selfcompare
     selfcompare.report(rep, "Q9", [u for u in common.compiler_units() if u.startswith("of_") or u in ("usedef.c", "flog.c", "dflow.c", "optfoam.c", "inlutil.c", "loops.c", "foam.c")], what="(optimizer)")
     from . import variadic
